@@ -637,6 +637,126 @@ def selection(run, m, F, E):
     return n
 
 
+def char_rendering(run, m, F, E):
+    """R11.5: format_char renders a value given the character class as the UTF-8 encoding of that code point, U+FFFD for every value
+    outside 0..10FFFF (negative values included).  The value is a symbol over the whole range of int; on each path the units handed
+    to the writer are compared bit for bit with Unicode Table 3-6 for the value class of that path."""
+    from . import c01
+    from .. import bits as B
+    f = None
+    for name in F.lib:
+        if m.func(name).dem.startswith('_ST_PRIVATE::format_char(ST::format_spec const&, ST::format_writer&, int)'):
+            f = m.func(name)
+    if f is None:
+        run.ob('R11.5', 'format_char', None, 'character renderer _ST_PRIVATE::format_char(format_spec, writer, int) not found: not analysed')
+        return 0
+
+    class CH(WriterHooks):
+        def call(self2, I, st, inst, name, args):
+            if name is None and 'format_writer' in inst.d.get('fty', '') and '(%"class.ST::format_writer"*, i8*, i64)' in inst.d.get('fty', ''):
+                n = I.as_u(st, args[2]) if isinstance(args[2], IntV) else None
+                k = single(st, n) if n is not None else None
+                units = None
+                p = args[1]
+                if k is not None and k <= 8 and isinstance(p, PtrV) and p.obj is not None:
+                    units = []
+                    for j in range(k):
+                        units.append(I.load(st, inst, PtrV(p.obj, p.off + j), 'i8', 1))
+                st.ev('emit-units', inst, units, n)
+                return [(st, args[0])]
+            return WriterHooks.call(self2, I, st, inst, name, args)
+    I = Interp(m, F, E, CH(m))
+    st = State()
+    fl = spec_scene(I, st, m)
+    run.need(fl is not None, 'layout of ST::format_spec not recognised')
+    # documented contract: no padding on character conversions (the assertion is C10's)
+    lay = m.structs.get('struct.ST::format_spec')
+    for nm, fld in zip(['minimum_length', 'precision', 'arg_index', 'alignment', 'digit_class', 'float_class', 'pad'], lay['fields']):
+        if nm == 'minimum_length':
+            st.objs['SPEC'].cells[fld[1]] = (4, IntV(32, ZERO, 's'))
+        if nm == 'pad':
+            st.objs['SPEC'].cells[fld[1]] = (1, IntV(8, ZERO, 'u'))
+    st.rng['ch'] = (-(1 << 31), (1 << 31) - 1)
+    w = I.fresh_ptr(st, 'writer')
+    outs = I.run(I.start(f, [PtrV('SPEC'), w, IntV(32, Lin.atom('ch'), 's')], st))
+    rows = c01.UTF8_ENC
+    n = 0
+    covered = []
+    for o in outs:
+        s2 = o.st
+        lo, hi = s2.arange('ch')
+        disc = 'value in [%s,%s]' % (hex(lo), hex(hi))
+        if o.kind == 'abort':
+            run.ob('R11.5', short(f.dem, 80), False, 'aborts (%s)' % (o.info[1] if o.info and len(o.info) > 1 else o.info,), disc=disc, loc=fn_loc(f))
+            n += 1
+            continue
+        if o.kind != 'ret':
+            continue
+        n += 1
+        em = [e for e in s2.events if e[0] in ('emit-units', 'emit', 'emit-char')]
+        units = []
+        tracked = True
+        for e in em:
+            if e[0] == 'emit-units' and e[2] is not None:
+                units += e[2]
+            elif e[0] == 'emit-char' and e[3] is not None and single(s2, e[3]) is not None and single(s2, e[3]) <= 4:
+                units += [e[2]] * single(s2, e[3])
+            elif e[0] == 'emit-units' and e[3] is not None and s2.is_eq0(e[3]) is True:
+                pass
+            else:
+                tracked = False
+        if not tracked or any(not isinstance(u, IntV) for u in units):
+            run.ob('R11.5', short(f.dem, 80), None, 'the units handed to the writer are not tracked on this path', disc=disc, loc=fn_loc(f))
+            continue
+        covered.append((lo, hi))
+        if hi < 0 or lo > 0x10FFFF:
+            got = [single(s2, I.as_u(s2, u)) for u in units]
+            ok = got == [0xEF, 0xBF, 0xBD]
+            run.ob('R11.5', short(f.dem, 80), ok, 'U+FFFD (EF BF BD)' if ok else 'a value outside 0..10FFFF (e.g. %d) renders as %s, expected EF BF BD' % (
+                lo if lo > 0x10FFFF else hi, ' '.join('%02X' % (x & 0xFF) if x is not None else '??' for x in got) or '(nothing)'), disc=disc, loc=fn_loc(f))
+            continue
+        row = [r for r in rows if r[0] <= max(lo, 0) and min(hi, 0x10FFFF) <= r[1]]
+        if lo < 0 or hi > 0x10FFFF or not row:
+            # the path's value class straddles rows of the table (or the valid range): judge its two ends
+            wit = None
+            for v in (lo, hi):
+                exp = [r for r in rows if r[0] <= v <= r[1]]
+                explen = len(exp[0][2]) if exp else 3
+                if explen != len(units):
+                    wit = (v, explen)
+                    break
+            if wit:
+                run.ob('R11.5', short(f.dem, 80), False, 'the value %s is rendered with %d unit(s), its encoding has %d' % (hex(wit[0]), len(units), wit[1]), disc=disc, loc=fn_loc(f))
+            else:
+                run.ob('R11.5', short(f.dem, 80), None, 'value class spans several rows of the encoding table: not compared', disc=disc, loc=fn_loc(f))
+            continue
+        want = row[0][2]
+        problems = []
+        if len(units) != len(want):
+            problems.append('%d unit(s) for the value %s, its encoding has %d' % (len(units), hex(lo), len(want)))
+        else:
+            be = B.BitEval(s2)
+            for k, (u, wv) in enumerate(zip(units, want)):
+                got = c01.lin_bits(I, s2, be, u, 8)
+                if got != c01.pad(wv, 8):
+                    if B.T in got:
+                        problems.append(None)
+                    else:
+                        problems.append('unit %d is [%s], the standard says [%s]' % (k, B.fmt(got), B.fmt(c01.pad(wv, 8))))
+        real = [x for x in problems if x]
+        run.ob('R11.5', short(f.dem, 80), False if real else (None if problems else True), real[0] if real else ('unit bits not expressible' if problems else
+               'UTF-8 encoding of the value, bit for bit'), disc=disc, loc=fn_loc(f))
+    # every value of int is on some path
+    covered.sort()
+    at = -(1 << 31)
+    for lo, hi in covered:
+        if lo <= at:
+            at = max(at, hi + 1)
+    if at <= (1 << 31) - 1 and covered:
+        run.ob('R11.5', short(f.dem, 80), None, 'no tracked path for values from %s' % hex(at), disc='coverage', loc=fn_loc(f))
+    return n
+
+
 def check(run):
     m = run.module()
     F = run.facts()
@@ -650,5 +770,6 @@ def check(run):
     run.floor('text layout cases', text_layout(run, m, F, E), 6)
     run.floor('numeric printers', numeric_fronts(run, m, F, E), 8)
     run.floor('apply_format instantiations', selection(run, m, F, E), 1)
+    run.counts['character rendering paths'] = char_rendering(run, m, F, E)
     for o in run.obs[:6]:
         run.sample(dict(rule=o['rule'], subject=o['subject'], verdict=o['verdict'], detail=o['detail'][:200]))
